@@ -129,6 +129,8 @@ def _classes(sig, ir):
     sig["typ_classes"] = ",".join(sorted({A.tclass(p.get("typ")) for p in ps}))
     sig["default_kinds"] = ",".join(sorted({A.vkind(p.get("default", O.ABSENT)) for p in ps}))
     sig["n_params"] = len(ps)
+    # (a parameter with a dotted type and a code-quoted default is what makes the ReST parser raise when the type line is omitted)
+    sig["dotted_code_default"] = any(A.tclass(p.get("typ")) == "dotted" and A.vkind(p.get("default", O.ABSENT)) == "code" for p in ps)
     return sig
 
 
